@@ -378,7 +378,8 @@ func (r *replicateChannelManager) StartReadCollection(ctx context.Context, db *m
 		if !ok {
 			log.Panic("the message is not drop collection message", zap.Any("msg", m))
 		}
-		msgID := api.GetDropCollectionMsgID(dropCollectionMsg.CollectionID)
+		// the id of the collection this barrier belongs to: the message may already carry the downstream id
+		msgID := api.GetDropCollectionMsgID(info.ID)
 		_, err := r.replicateMeta.UpdateTaskDropCollectionMsg(ctx, api.TaskDropCollectionMsg{
 			Base: api.BaseTaskMsg{
 				TaskID:         taskID,
